@@ -109,10 +109,70 @@ def engines(tier):
     return es
 
 
+def concurrent_part():
+    """'counted over the original and all clones' also when the clones call concurrently: 2-3 threads on one response chain,
+    ALL interleavings of the runtime's atomic operations (controlled scheduler, Layer B model: Props/C10.v gives the
+    position theorem this rests on).  Returns extra obligation records; raises through a replay on disagreement."""
+    import random
+    from .. import common as C
+    from .. import layer_b as B
+    from .C10 import op_counts
+    rng = random.Random(20)
+    eng = B.SchedEngine(); eng.build()
+    progs = []
+    for (nth, ncalls, ops) in [(2, 1, [("ret", 1), ("n", 1), ("then",), ("ret", 2), ("n", 1), ("then",), ("ans", 3)]),
+                               (3, 1, [("ret", 1), ("n", 2), ("then",), ("ret", 2)]),
+                               (2, 2, [("ans", 1), ("n", 1), ("then",), ("ret", 2), ("n", 2), ("then",), ("ret", 3)])]:
+        terms = [{"kind": "call", "mid": 0, "opener": "each", "pat": {"matcher": 255, "dbg": 1, "ops": ops}}]
+        progs.append({"partial": False, "terms": terms, "threads": [[(0, k)] * ncalls for k in range(nth)], "sched": []})
+    base = eng.model(progs)
+    cases = []
+    for c, obs in zip(progs, base):
+        for s in list(B.all_schedules(op_counts(obs, len(c["threads"]))))[:400]:
+            c2 = dict(c); c2["sched"] = s
+            cases.append(c2)
+    impl, model = eng.both(cases)
+    bad = [i for i in range(len(cases)) if B.project(impl[i]) != B.project(model[i])]
+    if bad:
+        res = [i for i in bad if B.results_only(B.project(impl[i])) != B.results_only(B.project(model[i]))]
+        i = (res or bad)[0]
+        path = C.write_replay("C02", 0, {"property": "C02", "part": "concurrent",
+            "theorem_or_correspondence": "correspondence C02 (concurrent matches of one response chain, all interleavings)"
+                                         + ("" if res else ": only the trace of atomic operations differs"),
+            "case": cases[i], "harness_line": B.harness_line(cases[i], "replay"),
+            "expected_by_model": model[i], "observed_on_implementation": impl[i]})
+        C.write_evidence("C02", "quick", 0, {"obligations": 1, "discharged": 0, "checker_cmd": "./check C02",
+                                             "trusted_base": C.TRUSTED_BASE, "explanation": "concurrent part disagreed", "samples": [B.harness_line(cases[i], "replay")]},
+                         0.0, violations=1)
+        C.violation("C02", path, no_input=not res)
+        return None
+    return [{"theorem": f"concurrent matches: {len(cases)} schedules (all interleavings of 3 programs) agree with the Layer B model",
+             "assumptions": "co-execution"}]
+
+
 def run(tier, seed):
+    extra = []
+    def extra_obligations():
+        r = concurrent_part()
+        if r is None:
+            raise SystemExit(1)
+        return r
     return run_coexec("C02", tier, seed, module=MODULE, theorems=THEOREMS, gen_cases=gen_cases,
-                      nontrivial=nontrivial, rule=RULE, engines=engines(tier), stats=stats)
+                      nontrivial=nontrivial, rule=RULE + "; plus 2-3 threads matching one chain concurrently under every interleaving of "
+                      "the runtime's atomic operations (controlled scheduler)", engines=engines(tier), stats=stats,
+                      extra_obligations=extra_obligations)
 
 
 def replay(path):
+    import json
+    payload = json.load(open(path))
+    if payload.get("part") == "concurrent":
+        from .. import common as C
+        from .. import layer_b as B
+        eng = B.SchedEngine(); eng.build()
+        impl, model = eng.both([payload["case"]])
+        print("model:", model[0]); print("impl :", impl[0])
+        if B.project(impl[0]) != B.project(model[0]):
+            C.violation("C02", path); return 1
+        print("agree"); return 0
     return replay_coexec("C02", path, lambda p: Engine("C02", bc=p.get("build", "cfg_std"), features=p.get("features")))
